@@ -32,6 +32,11 @@ type EvictionLimiter struct {
 	totalCount                 uint
 	nodePodCount               nodePodEvictedCount
 	namespacePodCount          namespacePodEvictCount
+	// evictions admitted by AllowEvict that have not been settled by Done or Cancel yet. They are
+	// charged against the limits so that concurrent evictions cannot pass the check together.
+	inflightTotalCount        uint
+	inflightNodePodCount      nodePodEvictedCount
+	inflightNamespacePodCount namespacePodEvictCount
 }
 
 func NewEvictionLimiter(
@@ -45,6 +50,8 @@ func NewEvictionLimiter(
 		maxPodsToEvictTotal:        maxPodsToEvictTotal,
 		nodePodCount:               make(nodePodEvictedCount),
 		namespacePodCount:          make(namespacePodEvictCount),
+		inflightNodePodCount:       make(nodePodEvictedCount),
+		inflightNamespacePodCount:  make(namespacePodEvictCount),
 	}
 }
 
@@ -55,6 +62,9 @@ func (pe *EvictionLimiter) Reset() {
 	pe.totalCount = 0
 	pe.nodePodCount = make(nodePodEvictedCount)
 	pe.namespacePodCount = make(namespacePodEvictCount)
+	pe.inflightTotalCount = 0
+	pe.inflightNodePodCount = make(nodePodEvictedCount)
+	pe.inflightNamespacePodCount = make(namespacePodEvictCount)
 }
 
 // NodeEvicted gives a number of pods evicted for node
@@ -107,28 +117,56 @@ func (pe *EvictionLimiter) AllowEvict(pod *corev1.Pod) bool {
 
 	nodeName := pod.Spec.NodeName
 	if nodeName != "" {
-		if pe.maxPodsToEvictPerNode != nil && pe.nodePodCount[pod.Spec.NodeName]+1 > *pe.maxPodsToEvictPerNode {
+		if pe.maxPodsToEvictPerNode != nil && pe.nodePodCount[nodeName]+pe.inflightNodePodCount[nodeName]+1 > *pe.maxPodsToEvictPerNode {
 			klog.ErrorS(fmt.Errorf("maximum number of evicted pods per node reached"), "Error evicting pod", "limit", *pe.maxPodsToEvictPerNode, "node", nodeName)
 			return false
 		}
 	}
 
-	if pe.maxPodsToEvictPerNamespace != nil && pe.namespacePodCount[pod.Namespace]+1 > *pe.maxPodsToEvictPerNamespace {
+	if pe.maxPodsToEvictPerNamespace != nil && pe.namespacePodCount[pod.Namespace]+pe.inflightNamespacePodCount[pod.Namespace]+1 > *pe.maxPodsToEvictPerNamespace {
 		klog.ErrorS(fmt.Errorf("maximum number of evicted pods per namespace reached"), "Error evicting pod", "limit", *pe.maxPodsToEvictPerNamespace, "namespace", pod.Namespace)
 		return false
 	}
 
-	if pe.maxPodsToEvictTotal != nil && pe.totalCount+1 > *pe.maxPodsToEvictTotal {
+	if pe.maxPodsToEvictTotal != nil && pe.totalCount+pe.inflightTotalCount+1 > *pe.maxPodsToEvictTotal {
 		klog.ErrorS(fmt.Errorf("maximum number of evicted pods total reached"), "Error evicting pod", "limit", *pe.maxPodsToEvictTotal)
 		return false
 	}
+	// hold the slot until Done or Cancel
+	if nodeName != "" {
+		pe.inflightNodePodCount[nodeName]++
+	}
+	pe.inflightNamespacePodCount[pod.Namespace]++
+	pe.inflightTotalCount++
 	return true
+}
+
+// releaseInflightNoLock gives back the slot AllowEvict held for the pod, if any.
+func (pe *EvictionLimiter) releaseInflightNoLock(pod *corev1.Pod) {
+	if pod.Spec.NodeName != "" && pe.inflightNodePodCount[pod.Spec.NodeName] > 0 {
+		pe.inflightNodePodCount[pod.Spec.NodeName]--
+	}
+	if pe.inflightNamespacePodCount[pod.Namespace] > 0 {
+		pe.inflightNamespacePodCount[pod.Namespace]--
+	}
+	if pe.inflightTotalCount > 0 {
+		pe.inflightTotalCount--
+	}
+}
+
+// Cancel releases the slot of an eviction that was admitted by AllowEvict but did not happen.
+func (pe *EvictionLimiter) Cancel(pod *corev1.Pod) {
+	pe.lock.Lock()
+	defer pe.lock.Unlock()
+
+	pe.releaseInflightNoLock(pod)
 }
 
 func (pe *EvictionLimiter) Done(pod *corev1.Pod) {
 	pe.lock.Lock()
 	defer pe.lock.Unlock()
 
+	pe.releaseInflightNoLock(pod)
 	if pod.Spec.NodeName != "" {
 		pe.nodePodCount[pod.Spec.NodeName]++
 	}
